@@ -144,6 +144,7 @@ func (vm *Vm) Run(ctx context.Context, b []byte) ([]byte, error) {
 		}
 
 		_ = vm.st.SetFlag(state.FLAG_DIRTY)
+		verifPoint()
 		op, bb, err := opSplit(b)
 		if err != nil {
 			return b, err
